@@ -127,9 +127,11 @@ PROPS = {
                 "panic, no process death; file trees: accepted iff every referenced file exists and parses. non-trivial = the corrupted text differs "
                 "from its seed / is non-empty",
         "quick": {"cases": 6000, "shards": 12, "shrinktime": "30s"},
-        "thorough": {"cases": 200000, "shards": 16, "shrinktime": "120s", "timeout_s": 3300},
+        "thorough": {"cases": 200000, "shards": 16, "shrinktime": "120s", "timeout_s": 3300, "native_fuzz_s": 240},
         "assumptions": ["the scripted deployer replaces engine.DefaultDeployerRegistry; container deployers are out of scope",
-                        "native go fuzzing of the same entry point is run separately (fuzz/), see DESIGN.md"],
+                        "thorough tier only: 240 s of native coverage-guided fuzzing (go test -fuzz, FuzzEngineParse: workflow bytes x input bytes through "
+                        "engine.New / Parse / Run in process, seeded with the 14 motif workflows and the hostile YAML shapes) follow the generated cases; "
+                        "Go's fuzzer cannot be pinned to VERIF_SEED, a saved input is confirmed through the check's own oracle before it counts"],
     },
     "C19": {
         "test": "TestC19", "binary": "plain", "level": "exploration",
